@@ -55,8 +55,8 @@ BOUNDS = {
         'cut_bonds_between_a_pair': '0..4 (3 and 4 in blocks 3 and 5)'},
     'thorough': {
         'block1_all_renderings': 'as quick plus every C N O molecule with <= 3 heavy atoms',
-        'block2_exhaustive_molecules': '<= 4 heavy atoms over the full alphabet (8 renderings up to 3 atoms, 3 for 4 atoms), 5 heavy atoms over '
-                                       'C N O (2 renderings)',
+        'block2_exhaustive_molecules': '<= 4 heavy atoms over the full alphabet (8 renderings up to 3 atoms, 2 for 4 atoms), 5 heavy atoms over '
+                                       'C N O (1 rendering)',
         'block3_library': '43 larger molecules x <= 40 seeded partitions x 4 renderings',
         'block4_base_orders': 'molecules <= 4 heavy atoms over C N O, partitions into 2-3 fragments, every base-graph node order, both constructors',
         'block5_multi_cut': 'as quick with 12 renderings',
@@ -142,7 +142,7 @@ def cases(tier, seed):
             yield {'fam': 'b5', 'mol': mol, 'part': part, 'r': r}
     # ---- block 2: exhaustive molecules x all partitions x covering renderings
     plan = [(1, g2.ALPHA_FULL, 1), (2, g2.ALPHA_FULL, 3), (3, g2.ALPHA_FULL, 2), (4, g2.ALPHA_CNO, 1)] if quick else \
-           [(1, g2.ALPHA_FULL, 1), (2, g2.ALPHA_FULL, 8), (3, g2.ALPHA_FULL, 8), (4, g2.ALPHA_FULL, 3), (5, g2.ALPHA_CNO, 2)]
+           [(1, g2.ALPHA_FULL, 1), (2, g2.ALPHA_FULL, 8), (3, g2.ALPHA_FULL, 8), (4, g2.ALPHA_FULL, 2), (5, g2.ALPHA_CNO, 1)]
     for n, alpha, k in plan:
         for mol in g2.small_molecules(n, alpha):
             for part in g2.connected_partitions(mol):
